@@ -15,3 +15,23 @@ pub fn vfs_create_dir(p: &PathBuf) -> (r: std::io::Result<()>) { unimplemented!(
 pub fn vfs_canonicalize_outdir(p: &PathBuf) -> (r: std::io::Result<PathBuf>)
     ensures r is Ok ==> r->Ok_0@ == canon(p@) && is_output_dir(r->Ok_0@) && r->Ok_0.is_abs(),
 { unimplemented!() }
+
+// ---- selection of members by name (extract)
+/// HashSet<String>: its content
+#[verifier::external_body]
+pub struct VStrSet { s: std::collections::HashSet<String> }
+impl VStrSet {
+    pub uninterp spec fn view(&self) -> Set<Seq<char>>;
+    #[verifier::external_body]
+    pub fn is_empty(&self) -> (r: bool) ensures r == (self@ =~= Set::<Seq<char>>::empty()) { unimplemented!() }
+    #[verifier::external_body]
+    pub fn contains(&self, k: &str) -> (r: bool) ensures r == self@.contains(k@) { unimplemented!() }
+}
+/// glob::Pattern: whether it matches a name is the glob crate's business
+pub struct Pattern { _p: u8 }
+pub uninterp spec fn glob_matches(p: &Pattern, name: Seq<char>) -> bool;
+/// patterns.iter().any(|pat| pat.matches(name))  [rewrite R9]
+#[verifier::external_body]
+pub fn vpatterns_any_match(patterns: &Vec<Pattern>, name: &str) -> (r: bool)
+    ensures r == exists|i: int| 0 <= i < patterns@.len() && glob_matches(#[trigger] &patterns@[i], name@),
+{ unimplemented!() }
